@@ -67,6 +67,15 @@ pub struct Case {
     /// while the old one is still alive: what the new appender acknowledges must be readable at the path
     #[serde(default)]
     pub external_rotate_at: Option<(u8, u8)>,
+    /// before the single append of this index ANOTHER appender is built on the path in truncate mode (and dropped again,
+    /// or kept open, without writing): the file is emptied - truncate mode "discards it at open time" - and what this
+    /// (append-mode) appender acknowledges afterwards is in the file at the path all the same
+    #[serde(default)]
+    pub truncating_twin_at: Option<(u8, bool)>,
+    /// the builder is told the opposite mode first and the wanted one afterwards (`.append(!m).append(m)`): the last
+    /// word counts
+    #[serde(default)]
+    pub mode_said_twice: bool,
 }
 
 /// `{m}` unless told to fail: then the first k bytes of the message are written and an error is returned.
@@ -148,9 +157,9 @@ pub fn strategy() -> impl Strategy<Value = Case> {
         prop::collection::vec(len_strategy(), 0..=3),
         prop::bool::weighted(0.7),
         (prop::bool::weighted(0.25), prop::option::weighted(0.25, 0u8..8), prop::option::weighted(0.2, 0u8..8), prop::option::weighted(0.2, 0u8..8), prop::bool::weighted(0.3)),
-        (prop::option::weighted(0.3, (0u8..8, prop_oneof![Just(0u8), 1u8..40])), prop::option::weighted(0.25, (0u8..8, 0u8..3))),
+        (prop::option::weighted(0.3, (0u8..8, prop_oneof![Just(0u8), 1u8..40])), prop::option::weighted(0.25, (0u8..8, 0u8..3)), prop::option::weighted(0.2, (0u8..8, prop::bool::ANY)), prop::bool::weighted(0.3)),
     )
-        .prop_map(|(pre_kind, pre_len, append_mode, chunks, singles, phase, singles_after, terminated, (twin, panicking_arg_at, nested_at, side_failure_at, via_config), (own_failure_at, external_rotate_at))| Case { pre_kind, pre_len, append_mode, via_config: via_config && chunks.is_none(), chunks, singles, phase, singles_after, terminated, twin: twin && append_mode, panicking_arg_at, nested_at, side_failure_at, own_failure_at, external_rotate_at })
+        .prop_map(|(pre_kind, pre_len, append_mode, chunks, singles, phase, singles_after, terminated, (twin, panicking_arg_at, nested_at, side_failure_at, via_config), (own_failure_at, external_rotate_at, truncating_twin_at, mode_said_twice))| Case { truncating_twin_at, mode_said_twice, pre_kind, pre_len, append_mode, via_config: via_config && chunks.is_none(), chunks, singles, phase, singles_after, terminated, twin: twin && append_mode, panicking_arg_at, nested_at, side_failure_at, own_failure_at, external_rotate_at })
 }
 
 /// Multi-chunk encoder which can park *inside* the appender's critical section.
@@ -244,7 +253,8 @@ fn check_in(dir: &Path, case: &Case, obs: &mut Obs) -> CaseResult {
             m.insert(serde_value::Value::String("encoder".into()), serde_value::Value::Map(enc));
             log4rs::config::Deserializers::default().deserialize::<dyn Append>("file", serde_value::Value::Map(m)).map_err(|e| Failure { sig: "C04:build".into(), msg: e.to_string() })?
         } else {
-            Box::new(FileAppender::builder().append(append_mode).encoder(encoder).build(&path).map_err(|e| Failure { sig: "C04:build".into(), msg: e.to_string() })?)
+            let b = if case.mode_said_twice { FileAppender::builder().append(!append_mode).append(append_mode) } else { FileAppender::builder().append(append_mode) };
+            Box::new(b.encoder(encoder).build(&path).map_err(|e| Failure { sig: "C04:build".into(), msg: e.to_string() })?)
         })
     };
     let mut app: Box<dyn Append> = build_app(case.append_mode)?;
@@ -368,6 +378,20 @@ fn check_in(dir: &Path, case: &Case, obs: &mut Obs) -> CaseResult {
                 let got = std::fs::read(&path).unwrap_or_default();
                 ensure!(got == expected, "C04:open-mode", "a new appender (append={}) built on the path after the file was rotated away by somebody else: the file holds {} bytes, expected {}", case.append_mode, got.len(), expected.len());
                 rotated_away = true;
+            }
+        }
+        if let (true, Some((k, keep_open))) = (case.append_mode && !case.twin && case.chunks.is_none(), case.truncating_twin_at) {
+            if k as usize % case.singles.len() == si && junk.is_none() {
+                let other = FileAppender::builder().append(false).encoder(make_encoder(&None)).build(&path).map_err(|e| Failure { sig: "C04:build".into(), msg: e.to_string() })?;
+                expected = vec![];
+                let got = std::fs::read(&path).unwrap_or_default();
+                ensure!(got.is_empty(), "C04:open-mode", "another appender was built on the path in truncate mode: the file still holds {} bytes", got.len());
+                if keep_open {
+                    retired.push(Box::new(other));
+                } else {
+                    drop(other);
+                }
+                obs.class("another-appender-truncated-the-file-meanwhile");
             }
         }
         if let (true, Some((k, part))) = (can_fail, case.own_failure_at) {
@@ -525,6 +549,7 @@ fn check_in(dir: &Path, case: &Case, obs: &mut Obs) -> CaseResult {
     obs.class_if(nested, "argument-logs-through-another-file-appender");
     obs.class_if(side_failed, "another-appender-failed-mid-record-earlier");
     obs.class_if(own_failed, "own-encoder-failed-mid-record-earlier");
+    obs.class_if(case.mode_said_twice && !case.via_config, "builder-told-the-open-mode-twice");
     obs.class_if(rotated_away, "file-rotated-away-by-somebody-else+new-appender");
     Ok(())
 }
